@@ -60,6 +60,9 @@ def main():
                         rec["broken"] = [b.get("what", "")[:200] for b in r.get("broken", [])[:4]]
                         rec["n_violations"] = len(r.get("violations", []))
                         rec["n_broken"] = len(r.get("broken", []))
+                        other = [b for b in r.get("broken", []) if "source tie" not in b.get("what", "")]
+                        rec["caught_by"] = ("failing-input" if r.get("violations") else
+                                            "obligation-or-correspondence" if other else "source-tie-only")
                     except Exception as e:
                         rec["replay_error"] = str(e)
             out["checks"][p] = rec
